@@ -9,6 +9,7 @@ import AfkakProofs.Producer.Wait
 import AfkakProofs.Producer.ReentrantExt
 import AfkakProofs.Producer.ReentrantTail
 import AfkakProofs.Producer.AfterStop
+import AfkakProofs.Producer.IdleOver
 /-!
 # C19 — Batching thresholds, time limit and cancellation behave as documented
 Property theorems only.  Model: `Afkak/Producer.lean`; monitors: `Afkak/Monitor/C19.lean`.
@@ -35,6 +36,15 @@ theorem C19_accounting (cfg : Cfg) (evs : List Ev) : accounting cfg (traceOf cfg
     out and stays out is rejected. -/
 theorem C19_dispatch_iff (cfg : Cfg) (evs : List Ev) : dispatchIff cfg (traceOf cfg evs) = true :=
   dispatchIff_model cfg evs
+
+/-- Never idle over a threshold — trace level, for EVERY event list: after every step the producer is not left with
+    no batch in flight and a non-empty queue over the count or byte threshold (clause (i) of `C19_dispatch_iff` on its
+    own, `Afkak/Monitor/C19Idle.lean`).  It speaks about the bookkeeping AFTER a step only; the harness therefore
+    evaluates this monitor also on implementation traces whose steps contain re-entrant calls from callbacks of send
+    Deferreds (a send made from the callback of a batch that completes inside `_send_batch()` must be dispatched
+    when that batch resolves), where the other flat monitors are not evaluated. -/
+theorem C19_never_idle_over_threshold (cfg : Cfg) (evs : List Ev) : neverIdleOver cfg (traceOf cfg evs) = true :=
+  neverIdleOver_model cfg evs
 
 /-- Wait bound (time limit) — in model time.  `tick` is an input event of the model; WHEN the looping call
     ticks is an assumption on the environment, `Afkak.Monitor.C19.scheduleFrom` (Twisted's `LoopingCall`
@@ -271,6 +281,7 @@ C19_stop
 C19_stopped_nothing_pending
 C19_send_after_stop_refused
 C19_dispatch_iff
+C19_never_idle_over_threshold
 C19_wait_bound
 C19_wait_bound_clock
 C19_reentrant_conservative
